@@ -96,6 +96,21 @@ def find_fn(block, name, offset=0, fulltext=None):
     return {'sig': sig, 'body': block[k + 1:e], 'line': line}
 
 
+def trait_impl_overrides(sources, trait, name):
+    """sources: {rel: comment-stripped text}.  -> [(rel, impl header)] of every `impl .. Trait<..> for ..` block that defines
+    `fn name`: a unit that verifies a trait DEFAULT method must know where that default is overridden, or it would prove
+    dead code."""
+    out = []
+    pat = re.compile(r'(?:unsafe\s+)?impl\b[^{;]*?\b' + re.escape(trait) + r'\b[^{;]*?\bfor\b[^{;]*\{')
+    for rel, text in sorted(sources.items()):
+        for m in pat.finditer(text):
+            i = m.end() - 1
+            j = match_brace(text, i)
+            if re.search(r'\bfn\s+' + re.escape(name) + r'\s*[<(]', text[i + 1:j]):
+                out.append((rel, ' '.join(m.group(0)[:-1].split())))
+    return out
+
+
 def find_free_fn(text, name):
     m = re.search(r'^(?:pub(?:\([a-z]+\))?\s+)?(?:const\s+)?(?:unsafe\s+)?fn\s+' + re.escape(name) + r'\s*(?:<[^{;]*?>)?\s*\(', text, re.M)
     if not m:
